@@ -399,3 +399,63 @@ def terms(ctx, verdict, fl) -> dict:
             dist[name] = dist.get(name, 0) + len(xs)
     return {"exact_float_law_checks": rep.checks, "exact_float_law_violations": rep.violations, "evaluations_per_term": dist,
             "domain": "finite parameters |p| <= 2^1022 (incl. subnormal, 1-ulp widths, vertical edges), heights in (0,1] incl. 5e-324; x: parameters +-3 ulp, interior, outside, +-inf, +-max, NaN"}
+
+
+# ----------------------------------------------------------------------------------------------- C11b: Ramp.tsukamoto / Concave.tsukamoto
+def tsukamoto(ctx, verdict, fl) -> dict:
+    """Exactly C11b_Ramp_tsukamoto_float (|s|,|e| <= 2^1022, 0 < h <= 1, 0 <= y <= h: finite, z(0) = start bitwise-equal value,
+    monotone in y in the direction of the term, never on the far side of start) and C11b_Concave_tsukamoto_float
+    (|i|,|e| <= 2^500, 2^-500 <= y <= h: finite, monotone in y).  Containment on the side of `end` is refuted in C11b and
+    therefore NOT checked."""
+    rep = _Reporter(verdict)
+    rng = ctx.rng
+    for _ in range(ctx.n(400, 4000)):
+        h = rng.choice([1.0, 0.5, 0.3, 0.75, 1e-3, rng.uniform(0.05, 1.0), 2.0 ** -1022, math.nextafter(1.0, 0.0)])
+        ys = {0.0, h, h / 2, math.nextafter(h, 0.0), math.nextafter(0.0, 1.0)}
+        for _ in range(ctx.n(12, 30)):
+            ys.update(y for y in chain(h * rng.random(), 2, 0.0, h))
+            ys.add(h * rng.random() * 2.0 ** -rng.randint(0, 200))
+        ys = sorted(y for y in ys if 0.0 <= y <= h)
+        # Ramp
+        s, e = _coord(rng), _coord(rng)
+        if s == e:
+            e = math.nextafter(e, inf) if e < BIG else math.nextafter(e, -inf)
+        t = fl.Ramp("t", s, e, h)
+        with np.errstate(all="ignore"):
+            z = [float(np.asarray(t.tsukamoto(y)).ravel()[0]) for y in ys]
+        rep.checks += 3 * len(ys) + 1
+        rp = {"term": "Ramp", "params": {"start": s, "end": e, "height": h}}
+        if not z[0] == s:
+            rep.fail("tsukamoto:Ramp-float-zero", f"Ramp({s!r}, {e!r}, {h!r}).tsukamoto(0.0) = {z[0]!r}, expected exactly start (C11b_Ramp_tsukamoto_float)", dict(rp, y=0.0, got=z[0]))
+        for y, v in zip(ys, z):
+            if not math.isfinite(v):
+                rep.fail("tsukamoto:Ramp-float-finite", f"Ramp({s!r}, {e!r}, {h!r}).tsukamoto({y!r}) = {v!r} is not finite (C11b_Ramp_tsukamoto_float)", dict(rp, y=y, got=v))
+            elif (s < e and v < s) or (e < s and v > s):
+                rep.fail("tsukamoto:Ramp-float-near-side", f"Ramp({s!r}, {e!r}, {h!r}).tsukamoto({y!r}) = {v!r} lies on the far side of start (C11b_Ramp_tsukamoto_float)", dict(rp, y=y, got=v))
+        for (y0, v0), (y1, v1) in zip(zip(ys, z), zip(ys[1:], z[1:])):
+            if (s < e and v1 < v0) or (e < s and v1 > v0):
+                rep.fail("tsukamoto:Ramp-float-monotone", f"Ramp({s!r}, {e!r}, {h!r}).tsukamoto is not monotone in binary64: z({y0!r}) = {v0!r}, z({y1!r}) = {v1!r} (C11b_Ramp_tsukamoto_float)",
+                         dict(rp, y=y0, y1=y1, got=v0, got1=v1))
+                break
+        # Concave
+        B = 2.0 ** 500
+        i, e = max(min(_coord(rng), B), -B), max(min(_coord(rng), B), -B)
+        if i == e:
+            e = math.nextafter(e, inf)
+        yc = [y for y in ys if y >= 2.0 ** -500]
+        if not yc:
+            continue
+        t = fl.Concave("t", i, e, h)
+        with np.errstate(all="ignore"):
+            z = [float(np.asarray(t.tsukamoto(y)).ravel()[0]) for y in yc]
+        rep.checks += 2 * len(yc)
+        rp = {"term": "Concave", "params": {"inflection": i, "end": e, "height": h}}
+        for y, v in zip(yc, z):
+            if not math.isfinite(v):
+                rep.fail("tsukamoto:Concave-float-finite", f"Concave({i!r}, {e!r}, {h!r}).tsukamoto({y!r}) = {v!r} is not finite (C11b_Concave_tsukamoto_float)", dict(rp, y=y, got=v))
+        for (y0, v0), (y1, v1) in zip(zip(yc, z), zip(yc[1:], z[1:])):
+            if (i < e and v1 < v0) or (e < i and v1 > v0):
+                rep.fail("tsukamoto:Concave-float-monotone", f"Concave({i!r}, {e!r}, {h!r}).tsukamoto is not monotone in binary64: z({y0!r}) = {v0!r}, z({y1!r}) = {v1!r} (C11b_Concave_tsukamoto_float)",
+                         dict(rp, y=y0, y1=y1, got=v0, got1=v1))
+                break
+    return {"exact_float_law_checks": rep.checks, "exact_float_law_violations": rep.violations}
